@@ -78,6 +78,7 @@ type HarnessResult struct {
 	Wall         float64
 	Funcs        map[string]int // encoded functions -> instructions executed
 	CrossDiff    []string
+	ForkSites    map[string]int64
 	Reports      map[string][]int64
 	mu           sync.Mutex
 }
@@ -128,6 +129,7 @@ type Path struct {
 	outcome map[string]Val
 	depth   int
 	prefs   []*Term
+	site    string
 }
 
 type unwindKey struct {
@@ -286,6 +288,11 @@ func (p *Path) branch(c *Term) bool {
 		}
 		alt := append(append([]int(nil), p.trail...), 0)
 		p.ex.push(alt)
+		p.ex.res.mu.Lock()
+		if p.ex.res.ForkSites != nil {
+			p.ex.res.ForkSites[p.site]++
+		}
+		p.ex.res.mu.Unlock()
 	}
 	p.trail = append(p.trail, 1)
 	p.assume(c)
@@ -520,7 +527,7 @@ func runHarness(in *Interp, cfg *HarnessCfg, workers int) *HarnessResult {
 		cfg.MaxSteps = 5000000
 	}
 	res := &HarnessResult{Cfg: cfg, Ends: map[string]int64{}, AssertsProved: map[string]int64{}, AssertsReached: map[string]int64{},
-		Covers: map[string]bool{}, CoverSeen: map[string]bool{}, Funcs: map[string]int{}}
+		Covers: map[string]bool{}, CoverSeen: map[string]bool{}, Funcs: map[string]int{}, ForkSites: map[string]int64{}}
 	ex := &Explorer{in: in, cfg: cfg, res: res}
 	ex.qcond = sync.NewCond(&ex.qmu)
 	ex.queue = [][]int{{}}
@@ -531,6 +538,25 @@ func runHarness(in *Interp, cfg *HarnessCfg, workers int) *HarnessResult {
 	if fn == nil {
 		res.incon(fmt.Sprintf("harness %s.%s not found (does it still compile against the tree?)", cfg.Pkg, cfg.Name))
 		return res
+	}
+	if os.Getenv("VERIF_DEBUG") != "" {
+		stop := make(chan struct{})
+		defer close(stop)
+		go func() {
+			for {
+				select {
+				case <-stop:
+					return
+				case <-time.After(10 * time.Second):
+					res.mu.Lock()
+					ex.qmu.Lock()
+					ql := len(ex.queue)
+					ex.qmu.Unlock()
+					fmt.Fprintf(os.Stderr, "[%s] paths=%d ends=%v queue=%d forks=%v incon=%d\n", cfg.Name, atomic.LoadInt64(&ex.npath), res.Ends, ql, topN(res.ForkSites, 8), len(res.Inconclusive))
+					res.mu.Unlock()
+				}
+			}
+		}()
 	}
 	var wg sync.WaitGroup
 	for w := 0; w < workers; w++ {
@@ -640,4 +666,21 @@ func firstLine(s string) string {
 		return s[:i]
 	}
 	return s
+}
+
+func topN(m map[string]int64, n int) []string {
+	type kv struct {
+		k string
+		v int64
+	}
+	var l []kv
+	for k, v := range m {
+		l = append(l, kv{k, v})
+	}
+	sort.Slice(l, func(i, j int) bool { return l[i].v > l[j].v })
+	var out []string
+	for i := 0; i < len(l) && i < n; i++ {
+		out = append(out, fmt.Sprintf("%s:%d", l[i].k, l[i].v))
+	}
+	return out
 }
